@@ -42,13 +42,16 @@ def fvn_kernel():
                                          source_text=read_source(SRC_FVN), consts=table)
     k.origin = f"{SRC_FVN}: find_valid_neighbors"
     k.fn = fn
-    k.numpy_names = numpy_names
+    k.numpy_names, k.consts, k.functions = numpy_names, table, {}
     return k
 
 
 # (class, method, Lean name): pixel kernels `(disp, valid) -> (out_disp, out_val)` of interpolated_disparity.py
 PIXEL_KERNELS = [
+    ("McCnnInterpolation", "interpolate_occlusion_mc_cnn", "occlusionMcCnnPx"),
+    ("McCnnInterpolation", "interpolate_mismatch_mc_cnn", "mismatchMcCnnPx"),
     ("SgmInterpolation", "interpolate_occlusion_sgm", "occlusionSgmPx"),
+    ("SgmInterpolation", "interpolate_mismatch_sgm", "mismatchSgmPx"),
 ]
 PX_PARAMS = [AParam("disp", VAL, 2), AParam("valid", INT, 2)]
 
@@ -71,8 +74,29 @@ def pixel_kernels(fvn):
                                               consts=table, callees=callees)
         k.origin = f"{SRC}: {cls}.{meth}"
         k.fn = fn
+        k.numpy_names, k.consts, k.functions = numpy_names, table, {c.py_name: fvn.fn for c in callees}
         out[lean] = k
     return out
+
+
+NODATA_PARAMS = [AParam("img", VAL, 2), AParam("valid", INT, 2)]
+
+
+def nodata_kernel(fvn):
+    """`interpolate_nodata_sgm` of img_tools.py (the same module as its callee `find_valid_neighbors`)"""
+    mod = parse(SRC_FVN)
+    fn = find_function(mod, "interpolate_nodata_sgm")
+    check_njit(fn, SRC_FVN)
+    defs = [n for n in ast.walk(mod) if isinstance(n, (ast.FunctionDef, ast.ClassDef)) and n.name == "find_valid_neighbors"]
+    if len(defs) != 1 or defs[0] not in mod.body or defs[0].lineno != fvn.fn.lineno:
+        raise Unsupported(f"{SRC_FVN}: `find_valid_neighbors` is not defined exactly once at module level")
+    numpy_names, table = const_table(mod, SRC_FVN)
+    k = pyloops_ext.translate_copy_kernel(fn, "nodataSgmPx", NODATA_PARAMS, numpy_names=numpy_names, source_text=read_source(SRC_FVN),
+                                          consts=table, callees=[pyloops_ext.Callee("find_valid_neighbors", fvn)])
+    k.origin = f"{SRC_FVN}: interpolate_nodata_sgm"
+    k.fn = fn
+    k.numpy_names, k.consts, k.functions = numpy_names, table, {"find_valid_neighbors": fvn.fn}
+    return k
 
 
 def kernels():
@@ -80,6 +104,7 @@ def kernels():
     fvn = fvn_kernel()
     out = {"findValidNeighbors": fvn}
     out.update(pixel_kernels(fvn))
+    out["nodataSgmPx"] = nodata_kernel(fvn)
     return out
 
 
@@ -94,6 +119,8 @@ GOLDEN_PX = [
     ([[3, None, 5]], [[0, 256, 0]]),
     ([[1, 2, 3], [4, None, 6], [-7, 8, None]], [[1, 0, 64], [0, 256 + 4, 1024], [4, 0, 256]]),
     ([[None, 2]], [[256, 0]]),
+    ([[3, None, 5, None]], [[0, 512, 0, 256]]),
+    ([[1, None], [None, 6], [None, None]], [[0, 512], [512 + 8, 0], [512, 2]]),
 ]
 
 
